@@ -142,6 +142,8 @@ def run(ck, tier):
     _acc2.run2(ck, F, 'C10')
     from . import relations as _rel
     _rel.run(ck, F, 'C10')
+    from . import guards as _grd
+    _grd.run(ck, F, 'C10')
     from . import accum as _acc
     _acc.run(ck, F, 'C10')
     run_child_opts(ck, F)
